@@ -291,7 +291,9 @@ fn hostile_pkesk_case(t: &mut Tape, rec: &mut Rec, kinds: &[Kind], li_classes: u
     let msg = [wire::new_packet(1, &body), container].concat();
     rec.checkpoint("hostile-pkesk:Message::decrypt");
     open_message(rec, &msg, None, &[kind], t);
-    if !v6 {
+    // (quick tier: only where the announced cipher octet is an assigned id or a few others; the
+    // thorough tier does it for every first octet)
+    if !v6 && (li_classes == 41 || first <= 13 || first % 41 == 0) {
         // the other containers a v3 PKESK may precede: GnuPG OCB (cipher octet = the announced one) and SED
         let mut b = vec![1u8, first, 2, (idx % 7) as u8];
         b.extend_from_slice(&expand(idx ^ 0x0CB, 15 + 48));
